@@ -157,6 +157,27 @@ def run_verylong(ctx, pt):
     ctx.eq('C07/bytes/long-string', ctx.attempt(lambda: val(Bits(b.bytes(), size=n))), ('ok', mval(n, x)))
 
 
+def pts_longpack(tier):
+    ls = [63, 64, 65, 127, 128, 129, 130, 131, 132, 133, 134, 135, 136, 137, 255, 256, 257, 259, 1023, 1024, 1025, 1027, 4095, 4097, 4099, 65535, 65537]
+    return [(l, d) for l in ls for d in ('exp', 'ff', 'tail')]
+
+
+def run_longpack(ctx, pt):
+    """generalized unpack / pack on byte strings whose length is not a multiple of 8, 4, 2 (a tail after the 8-byte words)"""
+    from crysp.bits import Bits, pack, unpack
+    l, d = pt
+    s = {'exp': expander(l, 11), 'ff': b'\xff' * l, 'tail': bytes(l - 3) + b'\x01\x80\xff'}[d]
+    ctx.eq('C07/unpack-le/long-string', ctx.attempt(unpack, s), ('ok', (int.from_bytes(s, 'little'), 8 * l)))
+    ctx.eq('C07/unpack-be/long-string', ctx.attempt(unpack, s, True), ('ok', (int.from_bytes(s, 'big'), 8 * l)))
+    x = int.from_bytes(s, 'little')
+    b = Bits(x, 8 * l)
+    ctx.eq('C07/pack-le/long-string', ctx.attempt(pack, b), ('ok', s))
+    ctx.eq('C07/pack-be/long-string', ctx.attempt(pack, b, '>L'), ('ok', s[::-1]))
+    for fmt in ('<L', '>L'):
+        r = ctx.attempt(lambda: val(Bits(*unpack(pack(b, fmt), bigend=(fmt == '>L')))))
+        ctx.eq('C07/unpack-pack-roundtrip/long-string', r, ('ok', mval(8 * l, x)))
+
+
 def pts_wide(tier):
     ws = list(range(17, 131)) + [255, 256, 257, 1023, 1024, 1025, 2047, 2048, 2049]
     return ws if tier == 'thorough' else [w for w in ws if w < 34 or w in (63, 64, 65, 127, 128, 129, 257, 2048, 2049)]
@@ -201,6 +222,8 @@ def subchecks():
         Sub('byte-strings', pts_long, run_long, engine='P',
             bound='every byte length 1..40 x 3 patterns x bitorder in {-1,+1,0} U {k, -k : k in 2..8, k | len}, each with 12 explicit sizes, and the orders again in reverse sequence; generalized unpack both endiannesses'),
         Sub('very-long-byte-strings', pts_verylong, run_verylong, engine='P', exhaustive=False, bound='13 byte strings of 4097..12288 bytes with group sizes 1, 2, 3, 5, 6, 7, 9, 10, 12, -3, -6 and the one-integer order'),
+        Sub('long-pack-unpack', pts_longpack, run_longpack, engine='P', exhaustive=False,
+            bound='27 byte lengths 63..65537 around multiples of 8 / 64 / 128 / 1024 / 4096 / 65536 x 3 contents (one with a non-zero tail only): unpack both endiannesses, pack both formats, round trips'),
         Sub('wide', pts_wide, run_wide, engine='P', exhaustive=False,
             bound='widths 17..130, 255..257, 1023..1025, 2047..2049 (quick: subset) x {0,1,2^k-1,2^k,2^k+1,2^n-1,alternating}; sampled per the property statement'),
     ]
